@@ -47,7 +47,7 @@ static unsigned long lclock;
 
 struct msig {
 	struct iv_signal *iv; int owner, idx, sig, flags, registered, registering;
-	unsigned long need_after, last_handler; long nhandled, may;
+	unsigned long need_after, last_handler, prev_handler, reg_time; long nhandled, may;
 };
 struct owner {
 	int slot, in_main, shutdown_done; long budget;
@@ -63,6 +63,7 @@ static __thread int raise_armed = -1;        /* signal index to raise from insid
 static __thread int raise_armed_slot = -1;
 static __thread int in_libcall;
 static int handler_depth[SCHED_MAXT];
+static int handoff_inflight[NSIGS];     /* unregister calls of exclusive interests under way per signal: each may hand a noted delivery to whatever is in the tree at that moment */
 static int libcalls_inflight[NSIGS];   /* register/unregister calls under way per signal (the harness count runs ahead of the library meanwhile) */
 static __thread int raise_before_unlock;
 static __thread struct msig *reg_in_progress; static __thread int raise_pending_unmask, pend_si; static __thread unsigned long pend_t;
@@ -140,6 +141,24 @@ static int same_tree(struct msig *a, struct msig *b)
 }
 static void drop_from_groups(struct msig *s)
 {
+	/* The library clears an interest's "delivery noted" mark just before it calls the handler.  A delivery that the harness saw
+	 * between the previous handler entry of s and its latest one may therefore have arrived after that moment and still be noted
+	 * although a handler entry followed it: if s is exclusive, unregistering it now hands that delivery to what is in its tree -
+	 * those interests may be woken once more (nothing is demanded of them). */
+	if (s->flags & IV_SIGNAL_FLAG_EXCLUSIVE) {
+		int ambiguous = 0;
+		for (int g = 0; g < ngroups; g++) {
+			struct group *G = &groups[g];
+			if (G->t <= s->prev_handler || G->t >= s->last_handler) continue;
+			for (int k = 0; k < G->nm; k++) if (G->m[k] == s) ambiguous = 1;
+			for (int k = 0; k < G->nmaybe; k++) if (G->mb[k] == s) ambiguous = 1;
+		}
+		if (ambiguous)
+			for (int o = 0; o < nown; o++) for (int i = 0; i < MAXI; i++) {
+				struct msig *q = &own[o].is[i];
+				if (q != s && q->registered && q->sig == s->sig && same_tree(q, s)) q->may++;
+			}
+	}
 	for (int g = 0; g < ngroups; g++) {
 		struct group *G = &groups[g];
 		if (G->discharged) continue;
@@ -158,6 +177,11 @@ static void drop_from_groups(struct msig *s)
 				if (known) continue;
 				q->may++;
 				if (q->flags & IV_SIGNAL_FLAG_EXCLUSIVE) G->m[G->nm++] = q; else G->f[G->nf++] = q;
+			}
+			/* an exclusive interest whose registration is under way in another thread may be in the tree by the time the library looks */
+			for (int o = 0; o < nown; o++) for (int i = 0; i < MAXI; i++) {
+				struct msig *q = &own[o].is[i];
+				if (q != s && q->registering && q->sig == s->sig && (q->flags & IV_SIGNAL_FLAG_EXCLUSIVE) && G->nmaybe < (int)(sizeof G->mb / sizeof G->mb[0])) G->mb[G->nmaybe++] = q;
 			}
 		}
 		if (G->nm == 0) {
@@ -209,7 +233,7 @@ static void sig_handler(void *cookie)
 	if (me != own[s->owner].slot) FAILC("wrong-thread", "interest %d.%d handler ran in T%d, registered in T%d", s->owner, s->idx, me, own[s->owner].slot);
 	s->nhandled++;
 	if (s->nhandled > s->may) FAILC("spurious-wakeup", "interest %d.%d (signal#%d flags=%d) ran %ld handlers but was a candidate for only %ld deliveries", s->owner, s->idx, s->sig, s->flags, s->nhandled, s->may);
-	s->last_handler = h;
+	s->prev_handler = s->last_handler ? s->last_handler : s->reg_time; s->last_handler = h;
 	discharge_on_handler(s, h);
 	extern void owner_actions(struct owner *o, int nmax);
 	owner_actions(&own[s->owner], 2);
@@ -224,7 +248,7 @@ static void sig_register(struct owner *o, int i, int arm_raise)
 	else { s->iv = malloc(sizeof *s->iv); memset(s->iv, 0xA5, sizeof *s->iv); IV_SIGNAL_INIT(s->iv); }
 	s->sig = want_sig; s->flags = want_flags; s->owner = (int)(o - own); s->idx = i;
 	s->iv->signum = signums[s->sig]; s->iv->flags = s->flags; s->iv->cookie = s; s->iv->handler = sig_handler;
-	s->need_after = s->last_handler = 0; s->nhandled = s->may = 0;
+	s->need_after = s->last_handler = 0; s->nhandled = s->may = 0; s->prev_handler = s->reg_time = lclock;
 	vz_log("[T%d] register interest %d.%d signal#%d flags=%d", sched_self(), s->owner, i, s->sig, s->flags);
 	vz_hash_u(0x200 + s->sig * 4 + s->flags);
 	int raise_si = -1; unsigned long t = 0;
@@ -238,6 +262,13 @@ static void sig_register(struct owner *o, int i, int arm_raise)
 			for (int g = 0; g < ngroups; g++) if (groups[g].t == ti && !groups[g].discharged) groups[g].discharged = 1;
 			for (int o = 0; o < nown; o++) for (int i = 0; i < MAXI; i++) { struct msig *q = &own[o].is[i]; if (q->sig == s->sig && q->need_after >= ti) q->need_after = q->last_handler; }
 		}
+	}
+	/* an exclusive interest of this signal that another thread is unregistering right now may hand its noted delivery to the newcomer too */
+	s->may += handoff_inflight[s->sig];
+	if (handoff_inflight[s->sig] && (s->flags & IV_SIGNAL_FLAG_EXCLUSIVE)) {
+		/* ... and an exclusive newcomer may take it away from everybody else: nothing can be demanded for open deliveries of this signal */
+		for (int g = 0; g < ngroups; g++) if (groups[g].sig == s->sig && !groups[g].discharged) groups[g].discharged = 1;
+		for (int o2 = 0; o2 < nown; o2++) for (int i2 = 0; i2 < MAXI; i2++) { struct msig *q = &own[o2].is[i2]; if (q->sig == s->sig && q->need_after > q->last_handler) q->need_after = q->last_handler; }
 	}
 	reg_in_progress = s; raise_before_unlock = ch_n(2);
 	in_libcall = 1; s->registering = 1; libcalls_inflight[s->sig]++;
@@ -260,9 +291,15 @@ static void sig_unregister(struct owner *o, int i, int arm_raise)
 	s->registered = 0; count_sig[s->sig]--;
 	if (arm_raise && count_sig[s->sig] >= 1 && libcalls_inflight[s->sig] == 0) { raise_si = s->sig; raise_armed = raise_si; raise_armed_slot = sched_self(); vz_label(L_RAISE_IN_LIBCALL); }
 	drop_from_groups(s); raise_before_unlock = ch_n(2);
+	if (s->flags & IV_SIGNAL_FLAG_EXCLUSIVE) {
+		handoff_inflight[s->sig]++;
+		/* ... and interests whose registration is under way in another thread may already be in the tree when the hand-off looks */
+		for (int oo = 0; oo < nown; oo++) for (int ii = 0; ii < MAXI; ii++) { struct msig *q = &own[oo].is[ii]; if (q != s && q->registering && q->sig == s->sig) q->may++; }
+	}
 	in_libcall = 1; libcalls_inflight[s->sig]++;
 	iv_signal_unregister(s->iv);
 	in_libcall = 0; libcalls_inflight[s->sig]--;
+	if (s->flags & IV_SIGNAL_FLAG_EXCLUSIVE) handoff_inflight[s->sig]--;
 	if (raise_pending_unmask) { raise_pending_unmask = 0; raises_inflight--; for (int k = 0; k < ninflight[pend_si]; k++) if (inflight_t[pend_si][k] == pend_t) { inflight_t[pend_si][k] = inflight_t[pend_si][--ninflight[pend_si]]; break; } }
 	raise_armed = -1; (void)raise_si; (void)t;
 	/* "initialised by IV_SIGNAL_INIT" once: the caller may keep the struct and register it again as it is */
